@@ -27,7 +27,8 @@ TOLERANCES = {"W,U,A": "bit-identical (torch.equal)"}
 def _history_case(draw, tier):
     cfg = draw(history.configs(wrappers=("interval", "interval", "interval", "reverse", "path", "tree")))
     big = tier == "thorough"
-    ops = draw(history.op_lists(cfg, min_ops=2, max_ops=20 if big else 12, max_sweep=120 if big else 50))
+    ops = draw(history.op_lists(cfg, min_ops=2, max_ops=20 if big else 12, max_sweep=120 if big else 50,
+                                allow_point=True))
     return {"kind": "history", "cfg": cfg, "ops": ops, "perm": draw(st.integers(0, 2 ** 31 - 1))}
 
 
@@ -119,3 +120,20 @@ def run_case(case):
         labels.append("repeat_across_rebuild")
     return Result(nontrivial=(far_repeat or rebuild_repeat) and len(order) >= 3, labels=labels, checks=checks,
                   metrics={"queries_per_history": n0, "repeats_in_history": repeats})
+
+
+MACHINE_CLAUSES = ("repeat_differs",)
+
+
+def finalize(tier, seed, stats):
+    """Second engine: Hypothesis rule-based state machine over the same Brownian object (vp/machine.py)."""
+    import torchsde
+    from .. import machine
+    n, steps = (40, 40) if tier == "quick" else (1200, 80)
+    viol, cov = machine.run(torchsde, ID, seed, n, steps)
+    if viol is not None and viol["clause"].startswith(MACHINE_CLAUSES):
+        stats.violations.append({"case": viol["case"], "shrunk": True,
+                                 "fail": {"clause": "state_machine:" + viol["clause"], "msg": viol["msg"], "sig": {}}})
+    elif viol is not None:
+        cov["state_machine_stopped_by_other_property_clause"] = viol["clause"]
+    return cov
